@@ -12,5 +12,6 @@ echo "tests: $(/venv/bin/python -m pytest -q -p no:cacheprovider 2>&1 | tail -1)
 PYTHONPATH=$WT /venv/bin/python "$M" >/tmp/seed_demo_changed.$$ 2>&1; echo "demo on changed tree: exit $? ($(tail -1 /tmp/seed_demo_changed.$$ | cut -c1-150))"
 cd /verif
 VERIF_REPO=$WT ./check $P --tier ${TIER:-quick} 2>/dev/null | grep -E "VIOLATION|KNOWN|tier=" | cut -c1-300
+rm -rf /tmp/verif_alt_$(/venv/bin/python -c "import hashlib,os,sys;print(hashlib.md5(os.path.realpath('$WT').encode()).hexdigest()[:10])")
 git -C /repo worktree remove --force $WT
 rm -f /tmp/seed_demo_clean.$$ /tmp/seed_demo_changed.$$
